@@ -3,6 +3,7 @@ package main
 import (
 	"fmt"
 	"math/rand"
+	"strings"
 	"sync"
 
 	"verifharness/datarep"
@@ -30,6 +31,13 @@ func c01Histories(run *evid.Run, t datarep.Table, nconn int) (conns, msgs int) {
 			defer func() { <-sem }()
 			rng := rand.New(rand.NewSource(run.Seed*7919 + int64(i)))
 			n, divs, err := c01History(t, i, rng)
+			if err != nil && (strings.Contains(err.Error(), "closed pipe") || strings.Contains(err.Error(), "closed network")) && len(divs) == 0 {
+				// the server ended the connection in the middle of a history of complete,
+				// well-formed messages: the message it was receiving did not get through
+				divs = append(divs, evid.Div{Prop: "C01", Key: "history:connection-ended", Msg: fmt.Sprintf("connection %d: the server closed the connection while well-formed messages were being sent (%v after %d messages)", i, err, n),
+					Replay: map[string]interface{}{"engine": "c01-history", "index": i}})
+				err = nil
+			}
 			mu.Lock()
 			defer mu.Unlock()
 			conns++
@@ -50,6 +58,31 @@ func c01Histories(run *evid.Run, t datarep.Table, nconn int) (conns, msgs int) {
 }
 
 func c01Stream(rng *rand.Rand) []byte {
+	n := 1 + rng.Intn(40)
+	if rng.Intn(4) == 0 {
+		// a stretch without LF far longer than the server's limit on COMMAND lines
+		// (200 here): message text has no such limit
+		n = 250 + rng.Intn(400)
+		b := make([]byte, n)
+		for k := range b {
+			switch rng.Intn(12) {
+			case 0:
+				b[k] = '.'
+			case 1:
+				b[k] = '\r'
+			default:
+				b[k] = byte(rng.Intn(256))
+				if b[k] == '\n' {
+					b[k] = 'x'
+				}
+			}
+		}
+		return append(append(c01StreamShort(rng), b...), c01StreamShort(rng)...)
+	}
+	return c01StreamShort(rng)
+}
+
+func c01StreamShort(rng *rand.Rand) []byte {
 	n := 1 + rng.Intn(40)
 	b := make([]byte, n)
 	for k := range b {
@@ -72,7 +105,7 @@ func c01Stream(rng *rand.Rand) []byte {
 func c01History(t datarep.Table, idx int, rng *rand.Rand) (int, []evid.Div, error) {
 	mode := idx % 3 // 0 plain, 1 STARTTLS available, 2 implicit TLS
 	lmtp := (idx/3)%2 == 1
-	cfg := drv.Cfg{LMTP: lmtp, MaxLine: 2000, Binarymime: true, TLSAvail: mode >= 1, ImplicitTLS: mode == 2}
+	cfg := drv.Cfg{LMTP: lmtp, MaxLine: 200, Binarymime: true, TLSAvail: mode >= 1, ImplicitTLS: mode == 2}
 	srv := drv.Start(cfg)
 	defer srv.Stop()
 	cn, err := srv.Dial()
